@@ -310,6 +310,50 @@ def c10_cases(rng, thorough):
 GEN = {"C07": c07_cases, "C08": c08_cases, "C09": c09_cases, "C10": c10_cases}
 
 
+SCALAR_C = [(0x0, "data_uint8", "uint8_t", 1), (0x1, "data_int8", "int8_t", 1), (0x2, "data_uint16", "uint16_t", 2),
+            (0x3, "data_int16", "int16_t", 2), (0x4, "data_uint32", "uint32_t", 4), (0x5, "data_int32", "int32_t", 4),
+            (0x6, "data_uint64", "uint64_t", 8), (0x7, "data_int64", "int64_t", 8), (0x8, "data_bool", "uint8_t", 1),
+            (0x9, "data_float", "float", 4), (0xA, "data_double", "double", 8)]
+
+
+def cbmc_scalars(rep, prop, thorough):
+    """CBMC on the REAL VSS codec: per scalar datatype and addressing mode, for ALL values, path
+    contents / static ids and prior buffer contents, C07 (bytes written) and C08 (decoding inverts,
+    does not write) as stated in harness/cbmc/vss_scalar_all_inputs.c; both host byte orders."""
+    import os
+    R = common.REPO
+    harness = os.path.join(common.VERIF, "harness", "cbmc", "vss_scalar_all_inputs.c")
+    lib = [os.path.join(R, "src", "avtp", "acf", "custom", "Vss.c"), os.path.join(R, "src", "avtp", "Utils.c")]
+    hs = lib + [harness, os.path.join(R, "include", "avtp", "acf", "custom", "Vss.h"), os.path.join(R, "include", "avtp", "Byteorder.h"),
+                os.path.join(R, "include", "avtp", "Defines.h")]
+    # quick: native byte order; thorough: both (the big-endian run is what C14 would otherwise only sample)
+    jobs = [[dt, member, ctype, k, interop, e] for (dt, member, ctype, k) in SCALAR_C for interop in (0, 1)
+            for e in (("little", "big") if thorough else ("little",))]
+
+    def cmd(job):
+        dt, member, ctype, k, interop, e = job
+        c = ["cbmc", "-DDT=%d" % dt, "-DMEMBER=%s" % member, "-DCTYPE=%s" % ctype, "-DK=%d" % k, "-DINTEROP=%d" % interop, "-DPLEN=5",
+             "-I", os.path.join(R, "include"), harness] + lib + ["--unwind", "48", "--unwinding-assertions", "--no-standard-checks", "--object-bits", "12"]
+        return c + (["--big-endian", "-D__BYTE_ORDER__=__ORDER_BIG_ENDIAN__", "-DHOST_BE"] if e == "big" else [])
+    results = common.cbmc_sweep("vssscalar", hs, jobs, cmd, "C0[78]", "t" if thorough else "q")
+    n_ok = 0
+    for job, verdict, failed, trace in results:
+        if verdict == "ok":
+            n_ok += 1
+            continue
+        mine = [f for f in failed if f.startswith(prop)]
+        if not mine:
+            continue
+        dt, member, ctype, k, interop, e = job
+        rep.violation("Vss:scalar:all-inputs:%s:%s:%s" % (e, "interop" if interop else "static-id", member),
+                      {"kind": "real-code-violates-the-statement", "datatype": dt, "member": member, "host_byte_order": e,
+                       "addressing": "interoperable path of 5 octets" if interop else "static id", "failed_assertions": mine,
+                       "cbmc_trace_tail": trace[-2500:],
+                       "replay_cmd": " ".join(cmd(job)) + " --trace"}, no_input=False)
+    rep.cov["cbmc_all_inputs"] = {"scalar_datatypes": len(SCALAR_C), "addressing_modes": 2, "byte_orders": 2 if thorough else 1, "verified": n_ok, "runs": len(results),
+                                  "statement": "for all values, path contents / ids and prior buffer contents: C07 bytes written, C08 decoding (harness/cbmc/vss_scalar_all_inputs.c)"}
+
+
 def cbmc_pad(rep, thorough):
     """CBMC on the REAL Avtp_Vss_Pad: per message length, for ALL prior buffer contents, C09 as
     stated (harness/cbmc/vsspad_all_inputs.c), both host byte orders."""
@@ -422,6 +466,8 @@ def check(rep, prop, tier, seed):
             diff_groups.setdefault("Vss", []).append(i)
     if prop == "C09":
         cbmc_pad(rep, thorough)
+    if prop in ("C07", "C08"):
+        cbmc_scalars(rep, prop, thorough)
     pipeline.report_proof_failures(rep, prop, res, diff_groups)
     cells = {(t["what"], t.get("mode"), t.get("code"), t["class"], t["len"] if prop in ("C09",) else None) for t in cs.tags}
     rep.cov.update(evaluations=len(cs.cases), distinct_nontrivial=len(cells), reference_checked=nref,
